@@ -160,13 +160,16 @@ class C09(runner.Prop):
                 # S keeps the receiver's own node types and key order (and the argument's below the receiver's
                 # leaves): an order-aware comparison of what S rebuilds with what the model's lub rebuilds
                 marks = [U.Leaf(i) for i in range(S.num_leaves)]
-                d = model.same_tree(S.unflatten(marks), model.rebuild(L, iter(marks)))
-                if d:
-                    ctx.fail('common_suffix/rebuilds_receiver_order', f'{d}; A={A} B={B} S={S}')
-                amarks = [U.Leaf(i) for i in range(A.num_leaves)]   # a leaf of A over a None node of B: S may have fewer leaves than A
-                d = model.same_tree(A.broadcast_to_common_suffix(A).unflatten(amarks), A.unflatten(amarks))
-                if d:
-                    ctx.fail('common_suffix/idempotent_order', f'{d}; A={A}')
+                try:
+                    d = model.same_tree(S.unflatten(marks), model.rebuild(L, iter(marks)))
+                    if d:
+                        ctx.fail('common_suffix/rebuilds_receiver_order', f'{d}; A={A} B={B} S={S}')
+                    amarks = [U.Leaf(i) for i in range(A.num_leaves)]   # a leaf of A over a None node of B: S may have fewer leaves than A
+                    d = model.same_tree(A.broadcast_to_common_suffix(A).unflatten(amarks), A.unflatten(amarks))
+                    if d:
+                        ctx.fail('common_suffix/idempotent_order', f'{d}; A={A}')
+                except Exception as e:  # noqa: BLE001
+                    ctx.fail('common_suffix/unflatten_raises', f'{type(e).__name__}: {e}; A={A} B={B} S={S}')
                 # least: both are prefixes of S
                 if not (A <= S and B <= S):
                     ctx.fail('common_suffix/upper_bound', f'A={A} B={B} S={S}')
